@@ -206,6 +206,8 @@ def run(ctx):
                 viol.append({"input_hex": t.hex(), "input": t.decode("latin-1"), "history_hex": [x.hex() for x, _ in multi[k:k + 3]],
                              "what": "rejection reported differently by a Parser that had rejected other scripts before: %s, fresh parser: %s" % (got[:100], a[:100])})
     _DIFFS[:] = rec.diffs() + ndiff + mdiff
+    import aliasing
+    viol += aliasing.nested_positions()
     fresh, known = split_known("C18", viol, lambda f, v: False)
     res = std_result(rec, info, fresh, known, RULE, {"tail-variation": {"evaluations": len(texts), "candidates": len(cand)}, "reused-parser": {"evaluations": nre}}, diffs=rec.diffs() + ndiff + mdiff)
     res["evaluations"] += len(texts)
